@@ -241,6 +241,22 @@ func buildPool(c Case) ([]*item, error) {
 		if err != nil {
 			return nil, err
 		}
+		// members of a collection carry SRIDs of their own (no decoder produces that, a
+		// caller who assembles a collection from stored geometries does)
+		var stamp func(t geom.T, n *int)
+		stamp = func(t geom.T, n *int) {
+			if gc, ok := t.(*geom.GeometryCollection); ok {
+				for _, m := range gc.Geoms() {
+					*n++
+					if *n%2 == 1 {
+						_, _ = geom.SetSRID(m, 3000+*n)
+					}
+					stamp(m, n)
+				}
+			}
+		}
+		n := i
+		stamp(t, &n)
 		it := &item{g: g, t: t}
 		if !g.IsCollection() {
 			it.flat = t.FlatCoords()
